@@ -114,18 +114,20 @@ def DiskCls.ratioNames : DiskCls → List String
   | .oneCore => ["diagonal_ratio"]
   | _ => ["core_ratio", "diagonal_ratio"]
 
-/-- the layout of the positions list handed to `MappedSketch.__init__` -/
+/-- the layout of the positions list handed to `MappedSketch.__init__`, by role (independent of the names of
+    locals and parameters): `paramK` = the K-th constructor parameter, `*inner@P` / `*outer@P` = the unpacked
+    `get_inner_points` / `get_outer_points` of the P-th `FanPattern` used -/
 def DiskCls.layout : DiskCls → List String
-  | .oneCore => ["*pattern.get_inner_points(angles,ratios)", "*pattern.get_outer_points(angles)"]
-  | _ => ["center_point", "*pattern.get_inner_points(angles,ratios)", "*pattern.get_outer_points(angles)"]
+  | .oneCore => ["*inner@0", "*outer@0"]
+  | _ => ["param0", "*inner@0", "*outer@0"]
 
 /-- what the model assumes about the source of the six disk classes, in the format of the regenerated table
     `CBV.Gen.c11DiskGen` (`wrappedPts` and `ovalPts` use `linspaceIdx 8 4 false` resp. `linspaceIdx 4 5 true`) -/
 def diskGenRows : List (String × (Nat × Nat × Bool) × List String × List String) :=
   [DiskCls.oneCore, .quarter, .half, .fourCore].map (fun cl => (cl.name, cl.linspace, cl.ratioNames, cl.layout)) ++
-  [("WrappedDisk", (8, 4, false), [], ["*square_points", "*arc_points", "*outer_points"]),
+  [("WrappedDisk", (8, 4, false), ["expr"], ["*inner@0", "*inner@0", "*outer@0"]),
    ("Oval", (4, 5, true), ["core_ratio", "diagonal_ratio"],
-    ["center_point_1", "*inner_points_1", "center_point_2", "*inner_points_2", "*outer_points_1", "*outer_points_2"])]
+    ["param0", "*inner@0", "param1", "*inner@1", "*outer@0", "*outer@1"])]
 
 def DiskCls.idx (cl : DiskCls) : List Nat := linspaceIdx cl.linspace.1 cl.linspace.2.1 cl.linspace.2.2
 
